@@ -42,3 +42,17 @@ Theorem C15_cancel_result_is_cause : forall w c cr, is_canceled w c = Some cr ->
   end.
 Proof. exact cancel_result_is_cause. Qed.
 Print Assumptions C15_cancel_result_is_cause.
+
+(* a Cancel that takes effect while the retry policy handles the failure it gives up on (retries exceeded, abort) -- after the
+   loop looked at the cancellation, e.g. while a failure listener runs -- is reported: the policy returns the cancellation's
+   result (ErrExecutionCanceled for ExecutionResult.Cancel(), C15_cancel_wins), not ExceededError.  Finding F17, repaired by a
+   fix: commit; any inner layer, any world *)
+Theorem C15_cancel_while_giving_up_is_reported : forall cfg pos (inner : layer) fuel c w cr,
+  let r := fst (inner c w) in let w1 := snd (inner c w) in
+  let r2 := fst (retry_on_failure cfg pos c (with_failure r) w1) in
+  let w2 := snd (retry_on_failure cfg pos c (with_failure r) w1) in
+  is_canceled w1 c = None -> rs_exceeded (get_rstate w1 pos) = false ->
+  is_failure (r_fpol cfg) (pr_out r) = true -> pr_done r2 = true -> is_canceled w2 c = Some cr ->
+  retry_loop (S fuel) cfg pos inner c w = (cr, w2, 1%nat).
+Proof. exact retry_gives_up_cancelled_reports_cancellation. Qed.
+Print Assumptions C15_cancel_while_giving_up_is_reported.
